@@ -31,6 +31,76 @@ impl Session {
     }
 }
 
+pub const ALL_CP: &[(&str, msi::CodePage)] = &[
+    ("Windows932", msi::CodePage::Windows932), ("Windows936", msi::CodePage::Windows936),
+    ("Windows949", msi::CodePage::Windows949), ("Windows950", msi::CodePage::Windows950),
+    ("Windows951", msi::CodePage::Windows951), ("Windows1250", msi::CodePage::Windows1250),
+    ("Windows1251", msi::CodePage::Windows1251), ("Windows1252", msi::CodePage::Windows1252),
+    ("Windows1253", msi::CodePage::Windows1253), ("Windows1254", msi::CodePage::Windows1254),
+    ("Windows1255", msi::CodePage::Windows1255), ("Windows1256", msi::CodePage::Windows1256),
+    ("Windows1257", msi::CodePage::Windows1257), ("Windows1258", msi::CodePage::Windows1258),
+    ("MacintoshRoman", msi::CodePage::MacintoshRoman),
+    ("MacintoshCyrillic", msi::CodePage::MacintoshCyrillic), ("UsAscii", msi::CodePage::UsAscii),
+    ("Iso88591", msi::CodePage::Iso88591), ("Iso88592", msi::CodePage::Iso88592),
+    ("Iso88593", msi::CodePage::Iso88593), ("Iso88594", msi::CodePage::Iso88594),
+    ("Iso88595", msi::CodePage::Iso88595), ("Iso88596", msi::CodePage::Iso88596),
+    ("Iso88597", msi::CodePage::Iso88597), ("Iso88598", msi::CodePage::Iso88598),
+    ("Utf8", msi::CodePage::Utf8),
+];
+
+pub fn cp_by_name(name: &str) -> Option<msi::CodePage> {
+    ALL_CP.iter().find(|p| p.0 == name).map(|p| p.1)
+}
+
+pub fn cp_name(cp: msi::CodePage) -> &'static str {
+    ALL_CP.iter().find(|p| p.1 == cp).map(|p| p.0).unwrap_or("?")
+}
+
+/// the encoding the documentation name of each code page promises (None: handled without encoding_rs)
+pub fn expected_encoding(name: &str) -> Option<&'static encoding_rs::Encoding> {
+    use encoding_rs::*;
+    Some(match name {
+        "Windows932" => SHIFT_JIS,
+        "Windows936" => GBK,
+        "Windows949" => EUC_KR,
+        "Windows950" | "Windows951" => BIG5,
+        "Windows1250" => WINDOWS_1250,
+        "Windows1251" => WINDOWS_1251,
+        "Windows1252" => WINDOWS_1252,
+        "Windows1253" => WINDOWS_1253,
+        "Windows1254" => WINDOWS_1254,
+        "Windows1255" => WINDOWS_1255,
+        "Windows1256" => WINDOWS_1256,
+        "Windows1257" => WINDOWS_1257,
+        "Windows1258" => WINDOWS_1258,
+        "MacintoshRoman" => MACINTOSH,
+        "MacintoshCyrillic" => X_MAC_CYRILLIC,
+        "Iso88591" => WINDOWS_1252,
+        "Iso88592" => ISO_8859_2,
+        "Iso88593" => ISO_8859_3,
+        "Iso88594" => ISO_8859_4,
+        "Iso88595" => ISO_8859_5,
+        "Iso88596" => ISO_8859_6,
+        "Iso88597" => ISO_8859_7,
+        "Iso88598" => ISO_8859_8,
+        "Utf8" => UTF_8,
+        _ => return None,
+    })
+}
+
+/// per-character code with the dependency used directly: None = unmappable
+pub fn expected_char(enc: &'static encoding_rs::Encoding, c: char) -> Option<Vec<u8>> {
+    let mut e = enc.new_encoder();
+    let mut buf = [0u8; 16];
+    let mut s = [0u8; 4];
+    let st = c.encode_utf8(&mut s);
+    let (res, _, written) = e.encode_from_utf8_without_replacement(st, &mut buf, true);
+    match res {
+        encoding_rs::EncoderResult::InputEmpty => Some(buf[..written].to_vec()),
+        _ => None,
+    }
+}
+
 /// (secs, nanos) with nanos in 0..10^9, relative to the Unix epoch -> SystemTime
 pub fn systime_of(secs: i64, nanos: u32) -> Option<SystemTime> {
     if secs >= 0 {
@@ -115,6 +185,83 @@ pub fn exec_line(sess: &mut Session, line: &str) -> String {
         "fmt" => {
             let (e, _) = E::parse(&toks[1..]).unwrap();
             hex_of_str(&e.to_msi().to_string())
+        }
+        "cp_id" => match cp_by_name(toks[1]) {
+            Some(cp) => cp.id().to_string(),
+            None => "bad-request".to_string(),
+        },
+        "cp_from_id" => {
+            let n: i32 = toks[1].parse().unwrap();
+            match msi::CodePage::from_id(n) {
+                Some(cp) => cp_name(cp).to_string(),
+                None => "none".to_string(),
+            }
+        }
+        "cp_encode" => {
+            let cp = cp_by_name(toks[1]).unwrap();
+            hex_of_bytes(&cp.encode(&str_of_hex(toks[2]).unwrap()))
+        }
+        "cp_decode" => {
+            let cp = cp_by_name(toks[1]).unwrap();
+            hex_of_str(&cp.decode(&bytes_of_hex(toks[2]).unwrap()))
+        }
+        "enc_loop" => {
+            // enc_loop <cp> <string> <per-char codes> : the real whole-string encoding
+            let cp = cp_by_name(toks[1]).unwrap();
+            hex_of_bytes(&cp.encode(&str_of_hex(toks[2]).unwrap()))
+        }
+        "@cp_sweep" => {
+            // complete enumeration of all scalar values for one code page, in-process
+            let name = toks[1];
+            let cp = cp_by_name(name).unwrap();
+            let exp = expected_encoding(name);
+            let mut lossy: Vec<String> = vec![];
+            let mut wiring: Vec<String> = vec![];
+            let mut mapped = 0u32;
+            let mut replaced = 0u32;
+            let mut buf = [0u8; 4];
+            for u in 0..=0x10FFFFu32 {
+                let c = match char::from_u32(u) {
+                    Some(c) => c,
+                    None => continue,
+                };
+                let st = c.encode_utf8(&mut buf);
+                let enc = cp.encode(st);
+                if enc == b"?" && c != '?' {
+                    replaced += 1;
+                } else {
+                    mapped += 1;
+                    let back = cp.decode(&enc);
+                    if back != *st && lossy.len() < 64 {
+                        lossy.push(format!("{:04X}", u));
+                    }
+                }
+                if let Some(e) = exp {
+                    let want = expected_char(e, c).unwrap_or_else(|| vec![b'?']);
+                    if want != enc && wiring.len() < 8 {
+                        wiring.push(format!("{:04X}", u));
+                    }
+                }
+            }
+            format!(
+                "mapped={mapped} replaced={replaced} lossy=[{}] wiring=[{}]",
+                lossy.join(","),
+                wiring.join(",")
+            )
+        }
+        "@cp_decode_sweep" => {
+            // every 1- and 2-byte sequence decodes without panicking
+            let cp = cp_by_name(toks[1]).unwrap();
+            let mut n = 0u32;
+            for a in 0..=255u8 {
+                let _ = cp.decode(&[a]);
+                n += 1;
+                for b in 0..=255u8 {
+                    let _ = cp.decode(&[a, b]);
+                    n += 1;
+                }
+            }
+            format!("decoded={n}")
         }
         "ts_rt" => {
             let secs: i64 = toks[1].parse().unwrap();
